@@ -614,6 +614,14 @@ func opUse(a []string) string {
 	cs := cose.NewCountersignature()
 	err = cs.Sign(rand.Reader, sgn, parent, []byte{1})
 	sb.WriteString(" cf=" + errClass(err) + ":" + dumpOptBytes(cs.Signature))
+	if kind == "s1u" {
+		// the untagged type itself is not a countersignature target (by value or by pointer): an
+		// error, never a crash
+		u := (*cose.UntaggedSign1Message)(parent.(*cose.Sign1Message))
+		_, e1 := cose.Countersign0(rand.Reader, sgn, *u, nil)
+		e2 := cose.NewCountersignature().Sign(rand.Reader, sgn, u, nil)
+		sb.WriteString(" cu=" + errClass(e1) + " cup=" + errClass(e2))
+	}
 	return sb.String()
 }
 
